@@ -104,11 +104,15 @@ def run(prop, tier, seed, replay=None):
     V = C.Verdict(prop, tier, seed, "model_checking")
     rnd = random.Random(seed * 7919 + hash(prop) % 1000)
     rnd = random.Random("%s-%d" % (prop, seed))
-    bindir = C.build_harness("dev", bins=["storedrv"])
+    bindir = C.build_harness("dev", bins=["storedrv", "kinddrv"] if prop == "C09" else ["storedrv"])
     wd = C.workdir("%s_%s" % (prop, tier))
 
     if replay:
         return run_replay(prop, replay, bindir, wd, V)
+
+    kinds_checked = 0
+    if prop == "C09":
+        kinds_checked = check_kinds(bindir, wd, V)
 
     # 1. model check the design on the primary universe
     prim = conf["universes"][0]
@@ -189,10 +193,30 @@ def run(prop, tier, seed, replay=None):
         edge_cover=edge_totals,
         exhaustive=False,
     )
+    if prop == "C09":
+        V.coverage["kinds_classified_and_validated"] = kinds_checked
     V.assumptions = ["TLC explores the generative spec exhaustively for the curated universe only (bounded)",
                      "projection through public read APIs is the observable state (DESIGN 4.3)",
                      "LMDB / mmap-append / TLC are trusted"]
     return V.finish()
+
+
+def check_kinds(bindir, wd, V):
+    """classification of all 65 536 kinds, recorded from the implementation and validated by TLC against the
+    predicates the store spec is built on"""
+    import subprocess
+    kp = os.path.join(wd, "kinds.ndjson")
+    subprocess.run([os.path.join(bindir, "kinddrv"), kp], check=True)
+    rc, out = C.run_tlc("TraceKinds.tla", "TraceKinds.cfg", env={"TRACE": kp, "UNIVERSE": S.universe_path("c09")}, workers=1,
+                        timeout=300, heap="3g", stack="1g")
+    recs = C.tlc_json_lines(out, "KINDS")
+    if not recs or recs[-1]["complete"] != 1:
+        raise C.ToolError("kind classification trace not validated:\n" + out[-1500:])
+    for k in recs[-1]["bad"][:5]:
+        V.violation("C09:kind_class:%d" % k, "Kind %d is classified differently by the implementation and by the specification "
+                    "(replaceable: 0, 3, 10000-19999; ephemeral: 20000-29999; parameterized: 30000-39999)" % k,
+                    dict(kind="kind_class", k=k))
+    return recs[-1]["n"]
 
 
 def classify(b, e, u):
